@@ -94,7 +94,7 @@ CHECKS.update({
         text=SIM + 'schedules of 1-8 QM queries, peer sightings and truncated trains on a float-exact millisecond grid; every multicast answer must fall in a '
              'window some query justifies (immediate / aggregated 20..500 ms / protected sighting+1 s..query+1.2 s), every requirement must be covered, no '
              'duplicates; trains are assembled once per source after the recorded 400-500 ms hold with the union of known answers.',
-        note='sightings are the host\'s own perception; assembly instants observed by wrapping handle_assembled_query from the harness; train lower bounds lenient as stated in the evidence assumptions',
+        note='sightings are the host\'s own perception; assembly instants observed by wrapping handle_assembled_query from the harness; a truncated train counts as arriving when it is assembled (windows anchored there)',
         ref='3/C12'),
 })
 
@@ -111,7 +111,7 @@ CHECKS.update({
     'C17': dict(
         technique='property-based testing of generated shutdown schedules in the simulator; invariant oracle over trace, callback log, task outcomes and the loop exception handler',
         text=SIM + 'async_close() is requested at generated instants (grid around registration steps, queued answers, TC holds, browser start-up, pending lookups) '
-             'on a victim with an active peer; nothing may be sent or called back after close returned, in-flight coroutines finish with documented outcomes, '
+             'or aimed at the periodic purge timer to within a few event-loop iterations of 1 us-1 ms virtual cost, on a victim with an active peer and a never-removed RecordUpdateListener; nothing may be sent or called back after close returned, in-flight coroutines finish with documented outcomes, '
              'registered services get three complete goodbyes, a second close is silent, 3 h of virtual time stay quiet.',
         note='async path only (Zeroconf.close() from a thread shares the logic but the thread hand-off is not executed); virtual-time busy loops are reported via an iteration budget',
         ref='3/C17'),
@@ -120,7 +120,7 @@ CHECKS.update({
 CHECKS.update({
     'C10': dict(
         technique='property-based testing of generated learn/refresh/re-case/withdraw/clock histories in the simulator; existential ladder-search oracle over the browser\'s query instants',
-        text=SIM + 'pointer records with different TTLs are learned in any order relative to the scheduler\'s armed wake-up; start-up schedule and question types, '
+        text=SIM + 'pointer records with different TTLs are learned (also repeated inside one datagram) in any order relative to the scheduler\'s armed wake-up, refreshes with another TTL aimed at the window in which the scheduler keeps its entry; start-up schedule and question types, '
              'minimum spacing, a 75 %/+10 % ladder of refresh attempts per record lifetime (searched existentially) and absence of queries on stale schedules are checked over hours of virtual time.',
         note='ladder windows carry one inter-query delay of slack on both sides; expiry discovered by the engine\'s own purge timer',
         ref='3/C10'),
@@ -159,7 +159,7 @@ CHECKS.update({
 CHECKS.update({
     'C16': dict(
         technique='metamorphic property-based testing: generated traffic history run once (R) and with every datagram duplicated (D) in the deterministic simulator under keyed jitter; traces and callback logs compared',
-        text=SIM + 'queries of every kind and responses with new/refreshed/goodbye/flush records; D must equal R in (time, socket, destination, decoded content) '
+        text=SIM + 'queries of every kind and responses with new/refreshed/goodbye/flush records, on an IPv4 or IPv6 socket; D must equal R in (time, socket, destination, decoded content) '
              'and in browser callbacks, except for a repeated unicast reply to a QU-containing datagram.',
         note='open finding F10 (duplicated QU datagram repeats its multicast side effects) is recognised by signature, removed from the comparison and counted',
         ref='3/C16'),
@@ -168,7 +168,7 @@ CHECKS.update({
 CHECKS.update({
     'C15': dict(
         technique='stream fuzzing with structure-aware generators (Hypothesis: mutations, compression-graph grammar, hostile-but-parsable names) against a running instance in the simulator; invariant + canary oracle',
-        text=SIM + 'streams of 1-25 (thorough 40) datagrams incl. 20 % oversized, from mDNS and legacy ports, IPv4/IPv6, on every socket of a victim that has registered services, '
+        text=SIM + 'streams of 1-25 (thorough 40) datagrams incl. 20 % oversized and announcements that repeat a record inside one datagram, gaps from 0 ms to 77 min, from mDNS and legacy ports, IPv4/IPv6, on every socket of a victim that has registered services, '
              'a browser and a lookup in progress; no exception may reach the loop, oversized datagrams leave no trace, and canary query/announcement traffic still works afterwards.',
         note='reuses C02\'s generators; an atheris corpus is not wired into this check (the grammar reaches the states fuzzing did not)',
         ref='3/C15'),
@@ -178,7 +178,7 @@ CHECKS.update({
     'C07': dict(
         category='fault_enumeration',
         technique='property-based scenario generation on a simulated multi-host link plus single-datagram-loss fault enumeration (each generated schedule re-run with datagram k dropped); convergence oracle over browser callbacks and lookups',
-        text=SIM + '2-5 hosts (joining at the start or just before first use), 1-6 services, 1-4 browsers, register/update/unregister/close at generated times, 0-100 ms '
+        text=SIM + '2-5 hosts (joining at the start or just before first use), 1-6 services (one host name each, or one per machine), 1-4 browsers (question type default/QM/QU), withdrawal races against queued answers, register/update/unregister/close at generated times, 0-100 ms '
              'per-receiver delays, optional duplication; each schedule is run without loss and then with one datagram dropped (three targeted k in the quick tier, every k for '
              'N <= 120 in the thorough tier). After 20 s every active browser must report exactly the registered instances; lookups from Added callbacks must resolve the advertised data.',
         note='operations on one host are sequential and await the returned broadcast task; same-family address updates only; evaluations counts executed runs',
